@@ -93,8 +93,8 @@ class StoreMachine(Machine):
             with ctx.scratch_fs() as s:
                 try:
                     dry()
-                except Exception:
-                    pass
+                except (Exception, SimBudgetExceeded, SimCrash):
+                    pass          # the real run below meets (and reports) the same thing
                 n = s.eligible_count(kind)
             fs = ctx.fs
             fs.begin_op(self.STEP_BUDGET)
@@ -245,11 +245,14 @@ class StoreMachine(Machine):
         ctx.digest.add('C', name)
 
     STRIP_FIRST = False   # C01: first re-write equal only up to trailing blanks
+    EMPTY_IS_ABSENT = False
 
     def fix_compare(self, files1, files2, cfg, first):
         fs = self.ctx.fs
         for f1, f2 in zip(files1, files2):
             b1, b2 = fs.files.get(f1), fs.files.get(f2)
+            if self.EMPTY_IS_ABSENT and not b1 and not b2:
+                continue      # a companion file with nothing in it carries nothing
             if b1 is None or b2 is None:
                 raise Violation('O2', 'file %s / %s missing after re-write' % (f1, f2))
             if first and self.STRIP_FIRST and not f1.endswith(('MESHA', 'MESHB')):
